@@ -453,3 +453,40 @@ func VP_C02_long_strings() {
 	vp.Assert(gotName == name, "root name round trip")
 	vp.Cover("end")
 }
+
+// a carrier capturing a wide, flat document: 600 empty lists (element type End,
+// as vanilla writes every empty list) and 600 empty int lists inside one
+// compound are captured and re-encoded byte for byte (nothing accumulates per
+// captured value).
+func VP_C02_rawmsg_wide() {
+	const n = 600
+	vp.SizeBound(16*n + 64)
+	vp.Unwind(2*n + 64)
+	vp.MaxSteps(900000000)
+	var payload []byte
+	for i := 0; i < n; i++ {
+		name := []byte{'a' + byte(i%26), 'a' + byte(i/26%26)}
+		et := byte(TagEnd)
+		if i%2 == 1 {
+			et = TagInt
+		}
+		payload = append(payload, TagList, 0, 3, name[0], name[1], byte('0'+i%10), et, 0, 0, 0, 0)
+	}
+	payload = append(payload, vpTagHdr(TagByte, "z")...)
+	payload = append(payload, vp.Byte(), 0)
+	var m RawMessage
+	r := &vpByteReader{b: append(append([]byte{}, payload...), 0x42)}
+	vp.Assert(m.UnmarshalNBT(TagCompound, r) == nil, "a well-formed value is captured")
+	vp.Assert(r.pos == len(payload) && m.Type == TagCompound && string(m.Data) == string(payload), "captured byte for byte")
+	var w vpBuf
+	vp.Assert(m.MarshalNBT(&w) == nil && string(w.b) == string(payload), "re-encoding reproduces the bytes")
+	// the same document with the carrier as a struct field, the rest skipped
+	var g struct {
+		Z int8 `nbt:"z"`
+	}
+	d := NewDecoder(&vpByteReader{b: append([]byte{TagCompound}, payload...)})
+	d.NetworkFormat(true)
+	_, err := d.Decode(&g)
+	vp.Assert(err == nil && g.Z == int8(payload[len(payload)-2]), "unknown fields are skipped")
+	vp.Cover("end")
+}
